@@ -304,6 +304,56 @@ fn tall_tables() -> Vec<Table> {
         .collect()
 }
 
+/// Tables written with the `prec_climber!` macro (feature const_prec_climber): the macro numbers the
+/// levels itself, so it is a separate way into PrecClimber.
+mod macro_tables {
+    use super::*;
+    use pest::prec_climber;
+    #[allow(non_camel_case_types)]
+    #[derive(Clone, Copy, Debug, Eq, Hash, Ord, PartialEq, PartialOrd)]
+    pub enum Rule {
+        n,
+        o1,
+        o2,
+        o3,
+        o4,
+        o5,
+        o6,
+    }
+    const RULES: [Rule; 7] = [Rule::n, Rule::o1, Rule::o2, Rule::o3, Rule::o4, Rule::o5, Rule::o6];
+    static T1: PrecClimber<Rule> = prec_climber![L o1 | o2, L o3 | o4, R o5 | o6];
+    static T2: PrecClimber<Rule> = prec_climber![R o1 | o2 | o3, L o4, L o5 | o6];
+    static T3: PrecClimber<Rule> = prec_climber![L o1, R o2, L o3 | o4 | o5 | o6];
+
+    pub fn check(stats: &mut Stats) {
+        let l = |level: u8, kind: Kind| OpDef { level, kind };
+        let tables: [(&PrecClimber<Rule>, Table); 3] = [
+            (&T1, vec![l(1, Kind::InfixL), l(1, Kind::InfixL), l(2, Kind::InfixL), l(2, Kind::InfixL), l(3, Kind::InfixR), l(3, Kind::InfixR)]),
+            (&T2, vec![l(1, Kind::InfixR), l(1, Kind::InfixR), l(1, Kind::InfixR), l(2, Kind::InfixL), l(3, Kind::InfixL), l(3, Kind::InfixL)]),
+            (&T3, vec![l(1, Kind::InfixL), l(2, Kind::InfixR), l(3, Kind::InfixL), l(3, Kind::InfixL), l(3, Kind::InfixL), l(3, Kind::InfixL)]),
+        ];
+        for (pc, t) in tables.iter() {
+            for seq in sequences(t, 7) {
+                let input: String = seq.iter().map(|t| if *t == 0 { 'n' } else { 'o' }).collect();
+                let want = shunting_yard(t, &seq);
+                stats.inc("evaluations");
+                stats.inc("distinct_nontrivial");
+                stats.inc("macro_table_evaluations");
+                let got = catch(|| {
+                    let mut b = PairsBuilder::new(&input);
+                    for (i, tk) in seq.iter().enumerate() {
+                        b = b.rule(RULES[*tk as usize], i, i + 1);
+                    }
+                    pc.climb(b.build(), |p| format!("n{}", p.as_span().start()), |l: String, o, r: String| format!("({l} o{}@{} {r})", RULES.iter().position(|x| *x == o.as_rule()).unwrap(), o.as_span().start()))
+                });
+                if got.as_deref() != Ok(want.as_str()) {
+                    stats.violation_class("prec-climber-macro-table-differs", json!({"kind": "prec-climber-macro-table-differs", "table": table_json(t), "sequence": seq.iter().enumerate().map(|(i, _)| label(&seq, i)).collect::<Vec<_>>(), "expected(shunting-yard)": want, "got": got.clone().unwrap_or_else(|p| format!("PANIC: {p}"))}));
+                }
+            }
+        }
+    }
+}
+
 /// PrecClimber applies to infix-only tables whose levels each have a single associativity.
 fn climber(t: &Table) -> Option<PrecClimber<u8>> {
     climber_shaped(t, 0)
@@ -510,8 +560,9 @@ fn main() {
     for p in parts {
         stats.merge(p);
     }
+    macro_tables::check(&mut stats);
     let mut cov = vcore::Map::new();
-    cov.insert("rule".into(), json!("tables = multisets of <= 4 operators over {prefix, postfix, infix-left, infix-right} x levels 1..3 (levels contiguous, at most two identical operators), plus wide tables with 3..5 infix operators of one associativity on one level, alone and beside a second level (sequences of at most 7 tokens), and tall tables of 30 and 70 single-operator levels (at most 5 tokens; PrecClimber chains built left-nested, right-nested and balanced; PrecClimber::new_const with natural, reversed and rotated tables); for each table every well-formed sequence prefix* operand postfix* (infix prefix* operand postfix*)* of at most K tokens (K+2 for tables with <= 2 operators), fed as flat Pairs built with PairsBuilder; PrattParser, ConstPrattParser<N> and (infix-only, one associativity per level) PrecClimber must return exactly the S-expression of an independent shunting-yard with the statement's binding powers; labels carry token positions, so equality implies every operator applied once and operand order preserved. Non-trivial: sequences of more than one token"));
+    cov.insert("rule".into(), json!("tables = multisets of <= 4 operators over {prefix, postfix, infix-left, infix-right} x levels 1..3 (levels contiguous, at most two identical operators), plus wide tables with 3..5 infix operators of one associativity on one level, alone and beside a second level (sequences of at most 7 tokens), and tall tables of 30 and 70 single-operator levels (at most 5 tokens; PrecClimber chains built left-nested, right-nested and balanced; PrecClimber::new_const with natural, reversed and rotated tables; three tables written with the prec_climber! macro); for each table every well-formed sequence prefix* operand postfix* (infix prefix* operand postfix*)* of at most K tokens (K+2 for tables with <= 2 operators), fed as flat Pairs built with PairsBuilder; PrattParser, ConstPrattParser<N> and (infix-only, one associativity per level) PrecClimber must return exactly the S-expression of an independent shunting-yard with the statement's binding powers; labels carry token positions, so equality implies every operator applied once and operand order preserved. Non-trivial: sequences of more than one token"));
     cov.insert("exhaustive".into(), json!(true));
     verdict::conclude(verdict::Report {
         property: "C13",
